@@ -718,6 +718,17 @@ class Interp:
             ha, hb = ctx.heap[a.oid], ctx.heap[b.oid]
             if ha.kind == 'list' and hb.kind == 'list':
                 return ctx.alloc(HObj('list', 'list', {'items': ha.fields['items'] + hb.fields['items']}, closed=True))
+            if ha.kind == 'symlist' and hb.kind == 'list' and ha.fields.get('scalar'):
+                # symbolic list + [x, ...] : appended one by one on a copy
+                n = ha.fields['len'].t
+                comps = list(ha.fields['comps'])
+                for x in hb.fields['items']:
+                    x = self.unopt(x, 'list element') if isinstance(x, VPat) else x
+                    if not hasattr(x, 't') or x.t.sort() != comps[0][0].sort().range():
+                        raise Unsupported('symbolic list + list of another element type')
+                    comps = [(z3.Store(comps[0][0], n, x.t), comps[0][1])]
+                    n = z3.simplify(n + 1)
+                return ctx.alloc(HObj('list', 'symlist', {'len': VInt(n), 'comps': comps, 'scalar': True, 'pat': False}, closed=True))
         if self.is_num(a) and self.is_num(b):
             real = isinstance(self.unopt_peek(a), VReal) or isinstance(self.unopt_peek(b), VReal)
             x, y = self.as_num(a, 'arith'), self.as_num(b, 'arith')
@@ -788,6 +799,22 @@ class Interp:
                 a = self.concrete_int(lo, None)
                 b = self.concrete_int(hi, None)
                 return self.ctx.alloc(HObj('list', 'list', {'items': h.fields['items'][a:b]}, closed=True))
+            if h.kind == 'symlist' and (hi is None or isinstance(hi, VNone)):
+                # lst[a:] : the same elements shifted by a
+                n = h.fields['len'].t
+                a = z3.IntVal(0) if lo is None or isinstance(lo, VNone) else self.as_int(lo)
+                a = z3.simplify(a)
+                if not (z3.is_int_value(a) and a.as_long() >= 0):
+                    raise Unsupported('symbolic-list slice with a symbolic or negative start')
+                ctx = self.ctx
+                newlen = z3.If(n >= a, n - a, 0)
+                comps = []
+                for arr, ty in h.fields['comps']:
+                    arr2 = z3.Const(ctx.fresh_name('slice.' + str(arr).split('!')[0][:20]), arr.sort())
+                    ctx.assume(S.QForall(z3.IntVal(0), newlen, lambda k, arr=arr, arr2=arr2: z3.Select(arr2, k) == z3.Select(arr, k + a)))
+                    comps.append((arr2, ty))
+                return ctx.alloc(HObj('list', 'symlist', {'len': VInt(z3.simplify(newlen)), 'comps': comps,
+                                                          'scalar': h.fields.get('scalar'), 'pat': h.fields.get('pat')}, closed=True))
             hook = self.reg.heap_hook(h.kind)
             if hook:
                 return hook.slice(self, base, lo, hi, node)
@@ -998,6 +1025,8 @@ class Interp:
             return models.call_class(self, f, args, kwargs, fr, node)
         if isinstance(f, VAny):
             return self.call_extern('opaque.__call__', [f] + args, kwargs, fr)
+        if isinstance(f, VObj) and self.ctx.heap[f.oid].cls == 'function':
+            return self.call_extern('callback', [f] + args, kwargs, fr)
         raise Unsupported('call of %r (line %s)' % (f, getattr(node, 'lineno', '?')))
 
     def bind_params(self, fi_node, args, kwargs, fr_for_defaults, what):
